@@ -241,6 +241,72 @@ def threaded_events(ctx: Ctx, rnd: random.Random, q: bool) -> list:
         hung = sch.run([body(tn) for tn in names], [names.index(t) for t in sched if t in names])
         pure = all(v == cold(calc, lambda y=y: calc._get_start_of_year_in_days(y)) for y, v in results)
         evs.append({"op": "thr", "what": "year_start_cache", "all_pure": pure, "identity_stable": True, "hung": bool(hung), "n": len(results)})
+    # the same protocol (a slot is valid for exactly the key stored in it) guards two more shared caches; the same TLC
+    # schedules are enforced on them: the zone-interval cache (period = 32 days, 512 slots) of a freshly wrapped zone ...
+    from pyoda_time import DateTimeZoneProviders, Instant
+    from pyoda_time.time_zones._cached_date_time_zone import _CachedDateTimeZone
+
+    files_zc = ("pyoda_time/time_zones/_caching_zone_interval_map.py",)
+    zids = ["Europe/London", "America/Sao_Paulo", "Australia/Lord_Howe", "Asia/Tehran", "Africa/Casablanca"]
+    for b in behs[: (20 if q else 300)]:
+        prog, sched = b["prog"], b["sched"]
+        names = sorted(prog)
+        shared = DateTimeZoneProviders.tzdb[rnd.choice(zids)]
+        inner = getattr(shared, "_CachedDateTimeZone__time_zone", None)
+        if inner is None:
+            continue
+        fresh = _CachedDateTimeZone._for_zone(inner)
+        base_day = rnd.randint(-10000, 12000)
+        imap = {k: Instant._ctor(days=base_day + 32 * (k % 2) + 512 * 32 * (k // 2) - 512 * 32 * 2, nano_of_day=rnd.randrange(86400) * 10**9) for k in range(8)}
+        results = []
+        lock = threading.Lock()
+
+        def zbody(tn, fresh=fresh, prog=prog, imap=imap, results=results, lock=lock):
+            def fn(s):
+                for k in prog[tn]:
+                    t = imap[k]
+                    v = fresh.get_zone_interval(t)
+                    with lock:
+                        results.append((t, v))
+            return fn
+
+        sch = LineScheduler(files_zc, stall_s=0.02)
+        hung = sch.run([zbody(tn) for tn in names], [names.index(t) for t in sched if t in names])
+        pure = all(v == inner.get_zone_interval(t) and t in v for t, v in results)
+        evs.append({"op": "thr", "what": "zone_interval_cache", "all_pure": pure, "identity_stable": True, "hung": bool(hung), "n": len(results)})
+    # ... and the class-wide year cache of the Hebrew calculator (1024 slots, shared by both Hebrew calendars)
+    files_heb = ("pyoda_time/calendars/_hebrew_scriptural_calculator.py",)
+    heb = [CalendarSystem.for_id("Hebrew Civil"), CalendarSystem.for_id("Hebrew Scriptural")]
+    for b in behs[: (20 if q else 300)]:
+        prog, sched = b["prog"], b["sched"]
+        names = sorted(prog)
+        base = rnd.randint(5, 1000)
+        ymap = {k: base + (k % 2) + 1024 * (k // 2) for k in range(8)}
+        results = []
+        lock = threading.Lock()
+        # both calendars' calculators consult the shared class cache: empty it (and the per-calculator caches) first
+        state = {}
+
+        def hbody(tn, prog=prog, ymap=ymap, results=results, lock=lock):
+            def fn(s):
+                for k in prog[tn]:
+                    y = ymap[k]
+                    cal_h = heb[k % 2]
+                    v = (cal_h.get_days_in_year(y), cal_h.get_days_in_month(y, 2), cal_h.get_days_in_month(y, 3), cal_h.get_days_in_month(y, 8), cal_h.get_days_in_month(y, 9))
+                    with lock:
+                        results.append((k % 2, y, v))
+            return fn
+
+        def run_shared():
+            sch = LineScheduler(files_heb, stall_s=0.02)
+            state["hung"] = sch.run([hbody(tn) for tn in names], [names.index(t) for t in sched if t in names])
+
+        cold(heb[0]._year_month_day_calculator, lambda: cold(heb[1]._year_month_day_calculator, run_shared))
+        pure = all(v == cold(heb[i]._year_month_day_calculator,
+                             lambda i=i, y=y: (heb[i].get_days_in_year(y), heb[i].get_days_in_month(y, 2), heb[i].get_days_in_month(y, 3),
+                                               heb[i].get_days_in_month(y, 8), heb[i].get_days_in_month(y, 9)))
+                   for i, y, v in results)
+        evs.append({"op": "thr", "what": "hebrew_year_cache", "all_pure": pure, "identity_stable": True, "hung": bool(state.get("hung")), "n": len(results)})
     # schedules from the lazy-zone-map model, on a fresh provider over the real data
     raw = open("/dev/null", "rb")
     raw.close()
